@@ -25,7 +25,7 @@ LK0 == [aged |-> 0,       \* virtual time passed (op "age"), ms
         lreqs |-> <<>>,   \* FINDNODE requests sent while a lookup was open: [rid, to, at, c (index of the only open lookup, 0 if ambiguous)]
         nodesok |-> {},   \* requests that got a complete NODES answer
         learnt |-> <<>>]  \* per request rid: the ids it reported: [rid, ids]
-M0 == [cfg |-> [mode |-> "ip4", filter |-> "all", maxnodes |-> 16, vote_min |-> 2, vote_ms |-> 3600000, par |-> 3, pto |-> 3600000, qto |-> 3600000],
+M0 == [cfg |-> [mode |-> "ip4", filter |-> "all", maxnodes |-> 16, vote_min |-> 2, vote_ms |-> 3600000, par |-> 3, pto |-> 3600000, qto |-> 3600000, cosim |-> FALSE],
        lk |-> LK0,
        running |-> TRUE,
        talks |-> <<>>,      \* [tr, rid, from] of every TALK request object handed to the application
@@ -296,6 +296,10 @@ LkStrict(cur, mm, m2, e) ==
                 ok |-> /\ [i \in 1..Len(res.contacts) |-> NameOfRank(rk, res.contacts[i])] = sentNames
                        /\ (res.fin => \E x \in 1..Len(obs.done) : obs.done[x].call = op.call)]
   ELSE IF ~ll.on THEN [cur EXCEPT !.ok = TRUE]
+  \* answers with hand-made record lists (off-distance records, rival records, ...) are the business of NodesExchange.tla: the lookup
+  \* they hit is no longer co-simulated (what is co-simulated: honest answers, empty answers, failures, time-outs)
+  ELSE IF op.o = "response_in" /\ ~Unres(e) /\ op.body.t = "nodes" /\ (Len(op.body.recs) > 0 \/ op.body.total > 1) /\ isMine(op.req)
+  THEN [l |-> [ll EXCEPT !.on = FALSE, !.spoiled = TRUE], ok |-> TRUE, ranks |-> cur.ranks]
   ELSE LET l1 == IF complete /\ isMine(op.req) /\ op.req \notin mm.answered /\ toOf(op.req) \in DOMAIN cur.ranks
                  THEN LK!Success(ll, cur.ranks[toOf(op.req)], news(toOf(op.req)))
                  ELSE IF op.o = "fail" /\ ~Unres(e) /\ isMine(op.req) /\ op.req \notin mm.answered /\ toOf(op.req) \in DOMAIN cur.ranks
@@ -312,7 +316,8 @@ Next ==
      IF e.op.o = "reset"
      THEN /\ m' = [M0 EXCEPT !.cfg = [mode |-> Get(e.op, "mode", "ip4"), filter |-> Get(e.op, "filter", "all"),
                                        maxnodes |-> Get(e.op, "maxnodes", 16), vote_min |-> Get(e.op, "vote_min", 2), vote_ms |-> 1000 * Get(e.op, "vote_dur", 3600),
-                                       par |-> Get(e.op, "par", 3), pto |-> 1000 * Get(e.op, "peer_timeout", 3600), qto |-> 1000 * Get(e.op, "query_timeout", 3600)],
+                                       par |-> Get(e.op, "par", 3), pto |-> 1000 * Get(e.op, "peer_timeout", 3600), qto |-> 1000 * Get(e.op, "query_timeout", 3600),
+                                       cosim |-> Get(e.op, "cosim", FALSE)],    \* the lookups of this behaviour are co-simulated by Lookup.tla (behaviours of MC_Lookup)
                              !.local = e.obs.local]
           /\ t' = T0 /\ UNCHANGED <<viols, sr>> /\ lq' = [l |-> LK!L0, ok |-> TRUE, ranks |-> <<>>]
      ELSE /\ m' = MonStep(m, e)
@@ -323,7 +328,7 @@ Next ==
                   /\ (e.op.o \in {"talk_respond", "talk_drop"} => sr'.ret = Get(e.op, "ret", "unresolved"))
                   /\ Len(sr'.out) = Cardinality(TalkResp(e))
              ELSE UNCHANGED <<t, sr>>
-          /\ IF STRICT THEN lq' = LkStrict(lq, m, m', e) /\ lq'.ok ELSE UNCHANGED lq
+          /\ IF STRICT /\ m.cfg.cosim THEN lq' = LkStrict(lq, m, m', e) /\ lq'.ok ELSE UNCHANGED lq
 Spec == Init /\ [][Next]_vars
 Report == l <= Len(Rec) \/ PrintT(<<"VIOLS", ToJson(viols)>>)
 Accepted == IF TLCGet("stats").diameter = Len(Rec) + 1 THEN TRUE
